@@ -251,3 +251,19 @@ claim("C08",
       "ratio. NOT decided: the numeric selection on real data beyond these tables (floating point, h5py reads).",
       "decision-table extraction by path-sensitive abstract interpretation + evaluation of the extracted guards and "
       "result terms on enumerated scenarios; argument provenance; enum exhaustiveness", "DESIGN.md#c08")
+
+claim("C01",
+      "The element-wise round trip through NumPy/h5py/HDF5 is NOT decided. Decided statically, on every abstract path, "
+      "are the storage layout and plumbing every write/read path relies on: compression -- conditional-constant "
+      "propagation of the Compression enum through the five links (File.__init__: Auto -> No; File.create_block: Auto -> "
+      "the file's; Block.create_data_array: Auto -> the block's; DataArray.create_new: filter flag iff DeflateNormal; "
+      "H5DataSet.__init__: gzip iff flag), so the effective setting is the first non-Auto of (array, block, file) and "
+      "only switches the gzip filter; creation invariants at the single dataset-creation site (maxshape None on every "
+      "axis of shape, chunked, given shape, given dtype except String -> variable-length text; no other creator); "
+      "append: both shape refusals precede the enlargement, which precedes the write, every normal path does both, and "
+      "the per-axis table of the hyperslab (appended axis: region [old : old + added]; other axes: [0 : extent]); "
+      "a[index] / a[index] = v / write_direct / create_data_array(data=) pass index and value through unchanged and "
+      "unswapped; writer, dtype reader and read conversion agree on the text type; array handles keep nothing about "
+      "the data set.",
+      "conditional-constant propagation / argument provenance / event order on all abstract paths (path-sensitive "
+      "abstract interpretation, raw h5py mode for the layer); who-may-create over the call graph", "DESIGN.md#c01")
